@@ -1,0 +1,35 @@
+package whitespace
+
+import "github.com/ajitpratap0/GoSQLX/pkg/sql/tokenizer"
+
+// lineClasses returns the byte classes of one line of the text classes were
+// computed for (nil if the line lies outside it).
+func lineClasses(classes []tokenizer.ByteClass, offset, length int) []tokenizer.ByteClass {
+	if offset < 0 || offset+length > len(classes) {
+		return nil
+	}
+	return classes[offset : offset+length]
+}
+
+// classAt returns the class of byte i of the classified text; positions
+// outside it count as code.
+func classAt(classes []tokenizer.ByteClass, i int) tokenizer.ByteClass {
+	if i < 0 || i >= len(classes) {
+		return tokenizer.ByteCode
+	}
+	return classes[i]
+}
+
+// startsInside reports whether the line starting at offset begins inside a
+// literal or comment that was opened on an earlier line: the newline before it
+// then belongs to that region.
+func startsInside(classes []tokenizer.ByteClass, offset int) bool {
+	return offset > 0 && classAt(classes, offset-1) != tokenizer.ByteCode
+}
+
+// endsInsideLiteral reports whether the line of the given length starting at
+// offset ends inside a string literal that continues on the next line, so that
+// blanks at its end are part of the string value.
+func endsInsideLiteral(classes []tokenizer.ByteClass, offset, length int) bool {
+	return classAt(classes, offset+length) == tokenizer.ByteLiteral && offset+length < len(classes)
+}
